@@ -58,3 +58,8 @@ CHECKS["C07"] = {
   "note": "clang 14 sanitizers on x86-64; images are placed so that the object start is 16-aligned; reference-bearing objects use the buffer prefix as image.",
   "technique": "property-based testing with compiled differential oracle and compiler sanitizers",
 }
+CHECKS["C13"] = {
+  "text": "Exploration with an exhaustive small scope: both CPU buffer kinds x every primitive (update_from_buffer over 8 Python source forms incl. ndarray.data of itemsize 1/2/4/8, update_from_native, copy_to_native, to_native, to_bytearray, to_pointer_arg, to_nplike/to_nparray over 10 dtypes and 1-3 dim shapes, update_from_nplike over all 100 dtype pairs x 5 source layouts, update_from_xbuffer same context / other context either kind / same buffer disjoint, the four scalar helpers for 10 kinds) x EVERY (offset, length) inside the buffer for capacities 0..10,16 (quick) / 0..24,32 (thorough), plus Hypothesis-generated cases up to 300 / 4096 bytes. Oracle: whole-buffer equality with a bytes reference model (exact range written, nothing else touched, storage length and capacity unchanged, sources unchanged), independence of extracted copies, two-way aliasing of typed views.",
+  "note": "In-range requests only; one buffer kind per context; same-buffer xbuffer copies only with disjoint ranges; dtype conversions generated exact.",
+  "technique": "exhaustive small-scope enumeration + property-based testing against a bytes reference model",
+}
